@@ -734,7 +734,10 @@ impl GntDevMapGrantRef {
         // GntDevMapGrantRef's pad and index are initialized to 0 by Fam layer.
         for (i, r) in refs.iter_mut().enumerate().take(count) {
             r.domid = domid;
-            r.reference = base + i as u32;
+            // The grant references of a range must not wrap around.
+            r.reference = base
+                .checked_add(i as u32)
+                .ok_or(Error::InvalidOffsetLength)?;
         }
 
         Ok(wrapper)
